@@ -378,6 +378,13 @@ def order_swap(ctx, lc):
         first.append({"obj": 0, "seq": s1, "q": "get_linear_sequence_composition", "a": [w, [["K", "R"], [rng.choice("STYG")]]]})
     for size in (2, 3, 4, 5, 6, 8, 10, 11, 12, 15, 18, 20):
         first.append({"obj": 0, "seq": s1, "q": "get_reduced_alphabet_sequence", "a": [size]})
+    # several different user alphabets on the same sequence (and on a second object with the same sequence): whichever is asked
+    # first must not decide the others
+    uas = [dict(objmodel.UA1), dict(objmodel.UA2), {a_: ("K" if a_ in "KRDE" else "G") for a_ in common.AA}, {a_: a_ for a_ in common.AA}]
+    for ob_ in (0, 2):
+        for ua_ in uas:
+            first.append({"obj": ob_, "seq": s1, "q": "get_reduced_alphabet_sequence", "a": [20, ua_]})
+            first.append({"obj": ob_, "seq": s1, "q": "get_linear_complexity", "a": [rng.choice(["WF", "LC", "LZW"]), 20, ua_, rng.randint(3, 9), 1]})
     for _ in range(ctx.pick(20, 80)):
         g1 = rng.sample(common.AA, rng.randint(1, 4))
         g2 = rng.sample([a for a in common.AA if a not in g1], rng.randint(1, 4))
